@@ -55,8 +55,22 @@ inline void walk_border(const bstate<N>& st, went* w, unsigned& nw, const unsign
     }
 }
 
+// endpoint keys: the first YK_EPB bytes symbolic, the rest 0x00, length 0..264 (beyond 255: the key length does not fit
+// the 8-bit key_length_type used inside the nodes)
+struct ep_key {
+    unsigned char b[272];
+    std::size_t len;
+};
+inline void make_ep(ep_key& k, bool longk) {
+    std::memset(k.b, 0, sizeof(k.b));
+    for (unsigned i = 0; i < YK_EPB; ++i) k.b[i] = (i % 8) < YK_KEYB ? yk_nondet_u8() : (unsigned char) 0;
+    unsigned lo = yk_nondet_u8(), hi = longk ? (unsigned) yk_nondet_u8() : 0u;
+    k.len = lo + 256u * hi;
+    yk_assume(k.len <= (longk ? 264u : (unsigned) YK_EPB));
+}
+inline std::string_view sv(const ep_key& k) { return std::string_view(reinterpret_cast<const char*>(k.b), k.len); }
 struct request {
-    sym_key l, r;
+    ep_key l, r;
     scan_endpoint le, re;
     std::size_t max_size;
     bool rtl;
@@ -68,9 +82,10 @@ inline scan_endpoint mk_endpoint() {
 }
 // LE/RE: 0 EXCLUSIVE, 1 INCLUSIVE, 2 INF, 3 symbolic (case split of the request over queries: each query is smaller)
 inline scan_endpoint endpoint_of(unsigned e) { return e == 0 ? scan_endpoint::EXCLUSIVE : (e == 1 ? scan_endpoint::INCLUSIVE : scan_endpoint::INF); }
-inline void mk_request(request& q, unsigned max_max, unsigned LE = 3, unsigned RE = 3, unsigned RTL = 2) {
-    make_key<YK_EPB>(q.l);
-    make_key<YK_EPB>(q.r);
+inline void mk_request(request& q, unsigned max_max, unsigned LE = 3, unsigned RE = 3, unsigned RTL = 2, bool longk = false) {
+    make_ep(q.l, longk);
+    make_ep(q.r, longk);
+    yk_assume(q.l.len <= 16 || q.r.len <= 16); // at most one of the two endpoint keys is long (bound of the memcmp model)
     q.le = LE == 3 ? mk_endpoint() : endpoint_of(LE);
     q.re = RE == 3 ? mk_endpoint() : endpoint_of(RE);
     q.max_size = yk_nondet_u8();
@@ -162,7 +177,7 @@ inline bool nv_stale(const std::vector<nv_t>& nv) {
 }
 
 // ------------------------------------------------------------------------------------------------ T1
-template<unsigned N, unsigned MAP, unsigned LE = 3, unsigned RE = 3, unsigned RTL = 2>
+template<unsigned N, unsigned MAP, unsigned LE = 3, unsigned RE = 3, unsigned RTL = 2, bool LONGK = false>
 inline void t1_scan() {
     bstate<N> st;
     build_border<N>(st, true, MAP);
@@ -172,7 +187,7 @@ inline void t1_scan() {
     unsigned nw = 0;
     walk_border<N>(st, w, nw, nullptr, 0);
     request q;
-    mk_request(q, N + 1, LE, RE, RTL);
+    mk_request(q, N + 1, LE, RE, RTL, LONGK);
     std::vector<tuple_t> res;
     std::vector<nv_t> nv;
     status rc;
@@ -411,6 +426,7 @@ inline void t0d_scan() {
 
 #define YK_ENTRY(name, call) YK_HARNESS name() { call; }
 YK_ENTRY(H_scan_t1_n1, (t1_scan<1, 0>()))
+YK_ENTRY(H_scan_t1_n1_long, (t1_scan<1, 0, 3, 3, 0, true>()))
 YK_ENTRY(H_scan_t1_n2, (t1_scan<2, 1>()))
 YK_ENTRY(H_scan_t1_n3, (t1_scan<3, 0>()))
 YK_ENTRY(H_scan_t0, (t0_scan()))
